@@ -179,7 +179,7 @@ def config_rule(ctx):
     for fld in CONFIG[:-1]:
         for (q, val, line, mod, aug) in census.attr_stores(m, fld):
             ctx.instance('C10.R5', (q, fld))
-            if q not in allowed:
+            if not census.only_reached_through(m, q, allowed):
                 ctx.report('C10.R5', q, '%s = ...' % fld, 'configuration is written outside the settings handler', line=line)
 
 
